@@ -84,7 +84,7 @@ def oracle(ctx, deep):
             continue
         got = f32_from_bits(d["ent"][2:])
         if d.get("stable") != "1":
-            ctx.violations.append({"finding_key": "C07-unstable", "what": "Entropy() differs between two calls", "recipe": meta["recipe"], "line": line, "observed": a})
+            ctx.violations.append({"finding_key": "C07-unstable", "what": "Entropy() differs between two calls, or between a literal recipe and a constructed one whose RequireSets were replaced in place to the same contents", "recipe": meta["recipe"], "line": line, "observed": a})
         a_size = len(r.allowed())
         fams = r.live_families()
         L = r.length
